@@ -359,6 +359,14 @@ Fixpoint floor_chars (n : Z) (s : str) : nat :=
   end.
 Definition byte_floor_prefix (n : Z) (s : str) : str := firstn (floor_chars n s) s.
 
+(** ['NaN'] / ['Infinity'] / ['-Infinity'] as (f64 bits, f32 bits): [f64::NAN], [f64::INFINITY],
+    [f64::NEG_INFINITY] and their [as f32] *)
+Definition special_bits (s : str) : option (Z * Z) :=
+  if str_eqb s (lit "NaN") then Some (9221120237041090560, 2143289344)
+  else if str_eqb s (lit "Infinity") then Some (9218868437227405312, 2139095040)
+  else if str_eqb s (lit "-Infinity") then Some (18442240474082181120, 4286578688)
+  else None.
+
 (** [coerce_value] (insert/validation.rs), arm by arm.  The three arms that turn a NUMERIC
     literal into an integer use float arithmetic ([fract], range tests, [as i64]) that is not
     modelled: they abstain (a dump never prints a non-integer literal for an integer column). *)
@@ -381,6 +389,14 @@ Definition coerce_value (v : sqlvalue) (t : dtype) : ores sqlvalue :=
   | VVarchar s, TTimestamp _ | VCharacter s, TTimestamp _ => of_res (parse_timestamp s)
   | VSmallint _, TSmallint => OOk v
   | VBigint _, TBigint => OOk v
+  (* integer literal -> SMALLINT: [i16::try_from] *)
+  | VInteger i, TSmallint => if (-32768 <=? i) && (i <=? 32767) then OOk (VSmallint i) else OErr
+  (* integer literal -> NUMERIC / DECIMAL: [*i as f64] *)
+  | VInteger i, TNumeric _ _ | VInteger i, TDecimal _ _ => OOk (VNumeric (f64_of_i64 fl i))
+  (* the spellings the dump writes for special floats; any other string falls to the last arm *)
+  | VVarchar s, TFloat _ => match special_bits s with Some (_, b32) => OOk (VFloat b32) | None => OErr end
+  | VVarchar s, TReal => match special_bits s with Some (_, b32) => OOk (VReal b32) | None => OErr end
+  | VVarchar s, TDouble => match special_bits s with Some (b64, _) => OOk (VDouble b64) | None => OErr end
   | VNumeric _, TNumeric _ _ => OOk v
   | VNumeric _, TDecimal _ _ => OOk v
   | VNumeric b, TFloat _ => OOk (VFloat (f32_of_f64 fl b))
@@ -400,8 +416,8 @@ Definition coerce_value (v : sqlvalue) (t : dtype) : ores sqlvalue :=
   | VSmallint i, TBigint => OOk (VBigint i)
   | VInteger i, TBigint => OOk (VBigint i)
   | VVarchar s, TChar n =>
-      (* length compared in BYTES; cut on a character boundary, or padded to [n] characters *)
-      if n <? blen s then OOk (VCharacter (byte_floor_prefix n s))
+      (* [s.chars().count() > n]: cut to [n] characters, else padded to [n] characters *)
+      if n <? Z.of_nat (length s) then OOk (VCharacter (firstn (Z.to_nat n) s))
       else OOk (VCharacter (pad_spaces n s))
   | VCharacter s, TVarchar _ => OOk (VVarchar (trim_end_by is_ws s))
   | _, _ => OErr
@@ -410,7 +426,7 @@ Definition coerce_value (v : sqlvalue) (t : dtype) : ores sqlvalue :=
 (** [RowNormalizer::validate_and_normalize_value] for a non-NULL value: the variant must be the
     column type's own (DATE/TIME/TIMESTAMP columns also take strings, which [coerce_value] has
     already converted), CHAR is padded / cut to [n] CHARACTERS ([normalize_char_value] counts
-    [chars()]), VARCHAR(n) is cut to [n] bytes ([&s[..n]], which can panic) *)
+    [chars()]), VARCHAR(n) is cut to the last character boundary within [n] bytes *)
 Definition normalize_value (v : sqlvalue) (t : dtype) : ores sqlvalue :=
   match t, v with
   | _, VNull => OOk v
@@ -424,7 +440,8 @@ Definition normalize_value (v : sqlvalue) (t : dtype) : ores sqlvalue :=
       else if n <? Z.of_nat (length s) then OOk (VCharacter (firstn (Z.to_nat n) s))
       else OOk v
   | TVarchar (Some n), VVarchar s =>
-      if n <? blen s then obind (byte_prefix n s) (fun p => OOk (VVarchar p)) else OOk v
+      (* [truncate_at_char_boundary] *)
+      if n <? blen s then OOk (VVarchar (byte_floor_prefix n s)) else OOk v
   | TVarchar None, VVarchar _ => OOk v
   | TDate, VVarchar s | TDate, VCharacter s => of_res (parse_date s)
   | TTime _, VVarchar s | TTime _, VCharacter s => of_res (parse_time s)
